@@ -35,6 +35,7 @@ structure ReqInv (incoming : Int) (B : Map Req) (Q : List Req) (hr : Bool)
   queueH : Q ≠ [] → hr = true
   ansN : ans.Nodup
   ansW : ∀ r ∈ ans, r.ref < next ∧ ∀ p, (r, p) ∈ reqs → p = Phase.writing
+  asyncC : ∀ q, (q, Phase.async) ∈ reqs → q.isCall = true
 
 structure Inv (m : M) : Prop where
   np : m.panicked = false
@@ -67,6 +68,31 @@ theorem fire_eq (t : Args → St → St × Out) (a : Args) (m : M)
 
 /-- The `done`/closer part of the invariant after any `updateInFlight` call whose closure keeps
 a finished connection quiescent. -/
+theorem epi_D' (s : St) (dc cc : Nat)
+    (h1 : s.done = true → s.idle = true ∧ s.reading = false ∧ s.closerOpen = false ∧ s.shuttingDown.isSome = true)
+    (h2 : dc = if s.done then 1 else 0) (h3 : cc = if s.closerOpen then 0 else 1)
+    (s' : St) (o : Out)
+    (hd : s'.done = s.done) (hc : s'.closerOpen = s.closerOpen)
+    (hstab : s.done = true → s'.idle = true ∧ s'.reading = false ∧ s'.shuttingDown.isSome = true)
+    (hop : o.panic = false) (hoc : o.closedCloser = false) (hod : o.closedDone = false) :
+    let e := epilogue s' o
+    (e.2.panic = false) ∧
+    (e.1.done = true → e.1.idle = true ∧ e.1.reading = false ∧ e.1.closerOpen = false ∧ e.1.shuttingDown.isSome = true) ∧
+    (dc + (if e.2.closedDone then 1 else 0) = if e.1.done then 1 else 0) ∧
+    (cc + (if e.2.closedCloser then 1 else 0) = if e.1.closerOpen then 0 else 1) := by
+  simp only [epi_panic, epi_done, epi_idle, epi_reading, epi_closerOpen, epi_shuttingDown, epi_closedDone,
+    epi_closedCloser, hop, hoc, hod, St.fin, hd, hc]
+  cases hdone : s.done
+  · simp only [hdone, if_false, Bool.false_eq_true] at h2
+    cases hco : s.closerOpen <;> simp only [hco, if_true, if_false, Bool.false_eq_true] at h3 <;>
+    cases hi : s'.idle <;> cases hs : s'.shuttingDown.isSome <;> cases hr : s'.reading <;>
+      simp [h2, h3, hi, hs, hr]
+  · obtain ⟨a1, a2, a3, a4⟩ := h1 hdone
+    obtain ⟨b1, b2, b3⟩ := hstab hdone
+    simp only [hdone, if_true] at h2
+    simp only [a3, if_false, Bool.false_eq_true] at h3
+    simp [h2, h3, b1, b2, b3, a3]
+
 theorem epi_D {m : M} (h : Inv m) (s' : St) (o : Out)
     (hd : s'.done = m.st.done) (hc : s'.closerOpen = m.st.closerOpen)
     (hstab : m.st.done = true → s'.idle = true ∧ s'.reading = false ∧ s'.shuttingDown.isSome = true)
@@ -75,20 +101,8 @@ theorem epi_D {m : M} (h : Inv m) (s' : St) (o : Out)
     (e.2.panic = false) ∧
     (e.1.done = true → e.1.idle = true ∧ e.1.reading = false ∧ e.1.closerOpen = false ∧ e.1.shuttingDown.isSome = true) ∧
     (m.doneCloses + (if e.2.closedDone then 1 else 0) = if e.1.done then 1 else 0) ∧
-    (m.closerCloses + (if e.2.closedCloser then 1 else 0) = if e.1.closerOpen then 0 else 1) := by
-  have h1 := h.d1; have h2 := h.d2; have h3 := h.d3
-  simp only [epi_panic, epi_done, epi_idle, epi_reading, epi_closerOpen, epi_shuttingDown, epi_closedDone,
-    epi_closedCloser, hop, hoc, hod, St.fin, hd, hc]
-  cases hdone : m.st.done
-  · simp only [hdone, if_false, Bool.false_eq_true] at h2
-    cases hco : m.st.closerOpen <;> simp only [hco, if_true, if_false, Bool.false_eq_true] at h3 <;>
-    cases hi : s'.idle <;> cases hs : s'.shuttingDown.isSome <;> cases hr : s'.reading <;>
-      simp [h2, h3, hi, hs, hr]
-  · obtain ⟨a1, a2, a3, a4⟩ := h1 hdone
-    obtain ⟨b1, b2, b3⟩ := hstab hdone
-    simp only [hdone, if_true] at h2
-    simp only [a3, if_false, Bool.false_eq_true] at h3
-    simp [h2, h3, b1, b2, b3, a3]
+    (m.closerCloses + (if e.2.closedCloser then 1 else 0) = if e.1.closerOpen then 0 else 1) :=
+  epi_D' m.st m.doneCloses m.closerCloses h.d1 h.d2 h.d3 s' o hd hc hstab hop hoc hod
 
 /-- Discharges a part of `Inv` that an action leaves alone. -/
 syntax "unch " ident " [" Lean.Parser.Tactic.simpLemma,* "]" : tactic
